@@ -62,7 +62,7 @@ MenuCluster == Installs({"cA", "cB", "cC", "cK"}, B, F, F, B, F) \cup Upgrades({
 MenuRetry == Installs({"cA", "cC"}, B, F, F, F, F) \cup Upgrades({"cA", "cB", "cC", "cK", "cV"}, F, B, {0}, F, F, F)
              \cup Rollbacks({0}, {0}, F, F, F)
 \* fault family (C03): atomic x cleanup x no-hooks
-MenuFault == Installs({"cA", "cH"}, F, B, B, F, F) \cup Upgrades({"cB", "cI", "cC"}, B, B, {0}, B, F, F)
+MenuFault == Installs({"cA", "cH"}, B, B, B, F, F) \cup Upgrades({"cB", "cI", "cC"}, B, B, {0}, B, F, F)
              \cup Rollbacks({0, 1}, {0}, B, B, F) \cup Uninstalls(F, F, F)
 \* dry-run family (C06)
 MenuDry == Installs({"cA", "cH"}, B, B, B, B, B) \cup CRDInstalls(B, B, B, B) \cup Upgrades({"cR"}, F, F, {0}, F, F, B) \cup Upgrades({"cB", "cI"}, B, B, {0, 1}, B, B, B)
@@ -96,7 +96,7 @@ MenuConcLim == Upgrades({"cB", "cC"}, F, F, {2}, F, F, F)
 MenuConcX == MenuConc \cup Installs({"cB"}, {TRUE}, F, F, F, F) \cup Upgrades({"cB"}, F, F, {2}, F, F, F)
 \* long histories (C01 pruning over two-digit revision numbers: storage lists records by NAME, v1 v10 v11 v2 ...)
 MenuLong == Installs({"cA"}, F, F, F, F, F) \cup Upgrades({"cA", "cB"}, F, F, {0, 3, 10, 11}, F, F, F)
-            \cup Rollbacks({0, 2}, {0, 10}, F, F, F)
+            \cup Rollbacks({0, 2}, {0, 10}, F, F, F) \cup Uninstalls(B, F, F)
 MenuAll == MenuLedger \cup MenuCluster \cup MenuFault \cup MenuDry \cup MenuOwn \cup MenuHooks
 
 \* smaller menus for the exhaustive configurations (the generators use the large ones)
@@ -136,6 +136,8 @@ EditsNew == {[kind |-> "oobnew", res |-> r, field |-> "", value |-> own] :
 GuardTrue(m) == TRUE
 \* simulation bias: on an empty ledger start with an install (other operations just fail at once)
 GuardBias(m) == (Used = {}) => (m.kind = "install" \/ (m.kind # "install" /\ m = U(m.kind, m.chart)))
+\* long histories: an uninstall only once revision numbers with two digits exist (drivers list records by NAME)
+GuardLong(m) == GuardBias(m) /\ (m.kind = "uninstall" => \E r \in Used : r >= 10)
 \* real operations until one of them has died half-way (a revision left pending), dry runs from then on
 GuardDryAfterCrash(m) == IF ncrash < MaxCrash THEN ~m.dry /\ GuardBias(m) ELSE m.dry
 
